@@ -1421,7 +1421,7 @@ PROPS["C06"]["trusted_base"] = PROPS["C06"]["trusted_base"] + [
     "(its happens-before edge is C05's subject, checked by the race detector, not here)"]
 for _pid in ("C01", "C02", "C08"):
     PROPS[_pid]["code_modules"] = PROPS[_pid]["code_modules"] + ["Flamego.Props.C02BaseTreeCode"]
-    PROPS[_pid]["technique"] = PROPS[_pid]["technique"] + "; and for the matcher every tree inherits (baseTree.matchLeaf / matchSubtree / matchNextSegment of tree.go, where precedence is decided): translated to Lean on every run and proved, one level of the tree at a time, to be the model's matchLeaves / matchSubsIdx / matchNextIdx"
+    PROPS[_pid]["technique"] = PROPS[_pid]["technique"] + "; and for the matcher every tree inherits (baseTree.matchLeaf / matchSubtree / matchNextSegment / Match of tree.go, where precedence is decided): translated to Lean on every run and proved, one level of the tree at a time, to be the model's matchLeaves / matchSubsIdx / matchNextIdx"
     PROPS[_pid]["level_text"] = PROPS[_pid]["level_text"] + (
         " The matcher's core too: baseTree.matchLeaf, matchSubtree and matchNextSegment (internal/route/tree.go), translated on every "
         "run (Gen/BaseTreeCode.lean; a call of a method on a child — an interface value in t.subtrees / t.leaves — stands for the "
@@ -1430,14 +1430,16 @@ for _pid in ("C01", "C02", "C08"):
         "searched to the bottom before the next; the match-all subtree ends the loop; then the tree's own match-all leaf) and "
         "matchNextIdx (cut the segment off, dispatch) — matchLeaf_refines, matchSubtree_refines, matchNextSegment_refines — and "
         "hence, at any cursor inside a path, to return what the segment-level matchNext of Model/Tree.lean returns "
-        "(matchNextSegment_segments, via Proofs/TreeIdx; the index-level model does not panic there); code_first_leaf_wins. "
-        "matchAllTree.matchAll (a `for cond` loop) and Match's final percent-decoding loop are not translated: they remain the model's, "
+        "(matchNextSegment_segments, via Proofs/TreeIdx; the index-level model does not panic there); code_first_leaf_wins; and "
+        "Match_refines: baseTree.Match itself (trim the leading slashes, search from the root with an empty map, percent-decode every "
+        "value in place — unescape_loop, with the distinctness of the map's names from Proofs/ParamsDistinct) is the model's Node.match "
+        "for every byte string. matchAllTree.matchAll (a `for cond` loop) is not translated: it remains the model's matchAllLoopIdx, "
         "tied by the correspondence.")
     PROPS[_pid]["trusted_base"] = PROPS[_pid]["trusted_base"] + [
         "code-level tie for baseTree's matcher: translator/treecode.go (BaseTreeCode), Code/LibTree.lean — calls on the children "
         "stand for the model's functions on them (the induction over the height of the tree is the model's own recursion; the "
         "leaves' and subtrees' own match methods have their theorems in Props/C01LeafCode, C02LeafCode, C02TreeCode); "
-        "hok l.hid stands for l.matchHeader(header); strings.Index is modelled for the separator \"/\" only; a slice bound out "
+        "hok l.hid stands for l.matchHeader(header); strings.Index and strings.TrimLeft are modelled for \"/\" only, url.PathUnescape is Base/Codec.pathUnescape; a slice bound out "
         "of range (a Go panic) is not represented — the theorems are stated for the runs on which the index-level model does not "
         "panic, which Proofs/TreeIdx and Props/C07 show to be all request paths"]
 _ALL = ['C01', 'C02', 'C03', 'C04', 'C05', 'C06', 'C07', 'C08', 'C09', 'C10', 'C11', 'C12', 'C13', 'C14', 'C15', 'C16', 'C17', 'C18']
